@@ -13,6 +13,7 @@ func (runInfo *runInfoStruct) invokeLetExpr() {
 
 	// IdentExpr
 	case *ast.IdentExpr:
+		runInfo.rv = detach(runInfo.rv)
 		if runInfo.env.SetValue(expr.Lit, runInfo.rv) != nil {
 			runInfo.err = nil
 			runInfo.env.DefineValue(expr.Lit, runInfo.rv)
